@@ -16,6 +16,9 @@ CLAIMED['C02'] = dict(ref='5.2', text='Clause K1 for every binary-layer parsable
 CLAIMED['C03'] = dict(ref='5.3', text='K2 (0 <= n <= len, n >= 1 for framing units and for vector items on non-empty input) on every accepting path of every binary class; the frame conditions of parse_mutable / parse_exact_size / parse_immutable proved once against the class contract; K8 for the framing units as a two-run obligation (same prefix, arbitrary other suffix => same object and n) plus n == the length the header declares, with the declared length written independently from the protocol documents.',
                 note='nested parsers enter through their own K1/K2/K8 clauses (assume-guarantee) and are assumed deterministic; LDAP frames (asn1crypto) and the text-layer SSH banner are not covered; TlsHandshakeMessageVariant K8 not covered (members are).',
                 technique='contract-based deductive verification: length/frame postconditions and a 2-run locality obligation over symbolic execution of the real source, z3')
+CLAIMED['C10'] = dict(ref='5.10', text='For every NByteEnumParsable factory the real linear search is proved, for the whole code space at once (symbolic code, loop contract over the member table), to return the first member carrying the code or raise InvalidValue; decoded members carry the wire code and re-encode to the same bytes; coded vectors keep every item, preserve unknown/GREASE codes through parse and compose for any number of items, and classify GREASE exactly; installed tables are checked for names sharing a code.',
+                note='cryptodatahub tables taken as installed; string-coded enumerations (text layer) are covered by the ground table obligations only; pyvc and z3 trusted.',
+                technique='contract-based deductive verification: table-lookup contract refined by the real search loop (loop contract), symbolic code space, z3; ground table obligations decided natively')
 PENDING = {}
 NA = {
     'C18': 'relational property over RFC text grammars; every code path is ParserText scanning loops, attrs reflection in FieldValueMultiple, dateutil/urllib3/json: no contract within reach of the installed SMT back ends expresses or decides it (DESIGN.md 5.18)',
